@@ -173,6 +173,70 @@ pub fn triggers(r: &RuleAst) -> BTreeSet<&'static str> {
     t
 }
 
+fn ident_is_negation(i: &Ident) -> Option<Ident> {
+    let es = match i {
+        Ident::Map(es) if es.len() == 1 => es,
+        Ident::Seq(s) if s.len() == 1 && s[0].len() == 1 => &s[0],
+        _ => return None,
+    };
+    if es[0].0.modi == KMod::Not {
+        Some(Ident::Map(vec![(Key { field: es[0].0.field.clone(), modi: KMod::None }, es[0].1.clone())]))
+    } else {
+        None
+    }
+}
+
+/// The rule with every negation pair removed the way shake removes it (`not not X` -> X; with
+/// `through_idents`, also `not I` where I is a one-entry identifier keyed `not(k)`).
+pub fn strip_double_negations(r: &RuleAst, through_idents: bool) -> RuleAst {
+    fn go(c: &Cond, r: &RuleAst, through: bool, extra: &mut Vec<(String, Ident)>) -> Cond {
+        match c {
+            Cond::Not(a) => {
+                let mut inner: &Cond = a;
+                while let Cond::Paren(p) = inner {
+                    inner = p;
+                }
+                match inner {
+                    Cond::Not(b) => go(b, r, through, extra),
+                    Cond::Id(i) if through => match r.ident(i).and_then(ident_is_negation) {
+                        Some(pos) => {
+                            let name = format!("{}P", i);
+                            if !extra.iter().any(|(n, _)| *n == name) {
+                                extra.push((name.clone(), pos));
+                            }
+                            Cond::Id(name)
+                        }
+                        None => Cond::not(go(a, r, through, extra)),
+                    },
+                    _ => {
+                        let g = go(a, r, through, extra);
+                        // the operand may itself have become a negation
+                        let mut gi: &Cond = &g;
+                        while let Cond::Paren(p) = gi {
+                            gi = p;
+                        }
+                        if let Cond::Not(b) = gi {
+                            (**b).clone()
+                        } else {
+                            Cond::not(g)
+                        }
+                    }
+                }
+            }
+            Cond::And(a, b) => Cond::and(go(a, r, through, extra), go(b, r, through, extra)),
+            Cond::Or(a, b) => Cond::or(go(a, r, through, extra), go(b, r, through, extra)),
+            Cond::Paren(a) => Cond::Paren(Box::new(go(a, r, through, extra))),
+            x => x.clone(),
+        }
+    }
+    let mut extra = vec![];
+    let cond = go(&r.cond, r, through_idents, &mut extra);
+    let mut n = r.clone();
+    n.cond = cond;
+    n.idents.extend(extra);
+    n
+}
+
 /// Sub-rules used for the T-preservation probes: every identifier on its own and every
 /// sub-condition, as the whole condition of a rule with the same identifiers.
 fn sub_rules(r: &RuleAst) -> Vec<RuleAst> {
@@ -317,6 +381,26 @@ fn report(rep: &mut Report, ast: &RuleAst, text: &str, doc: &DVal, sw: Sw, cfg: 
                 mon::case(&subt, doc, Some(sw), json!("same verdict as unoptimised"), json!(w), json!({"parent_rule": text})),
             );
             return;
+        }
+    }
+    // the double-negation finding has an exact model (shake removes the pair): when that is the
+    // only trigger, the optimised verdict must be what the rule without the pair gives
+    // unoptimised - anything else is not D5
+    if trig.len() == 1 && trig.contains("double-negation") && msw.shake() {
+        let stripped = strip_double_negations(&sr, msw.coalesce());
+        if stripped != sr && triggers(&stripped).is_empty() {
+            rep.count("dneg_model_checks");
+            let want = stripped.to_text().and_then(|t| eng::load_ok(&t)).and_then(|r| eng::matches(&r, &to_yaml_map(&sd)).ok());
+            let got: Option<bool> = sr.to_text().and_then(|t| eng::load_ok(&t)).and_then(|r| eng::optimise(&r, msw).ok()).and_then(|o| eng::matches(&o, &to_yaml_map(&sd)).ok());
+            if want.is_some() && got != want {
+                rep.violation(
+                    "verdict-differs",
+                    &format!("c01:S1-dneg-model:{}", tagk),
+                    &format!("{} with switches [{}]: the rule's only trigger is a double negation, but the optimised verdict {:?} is not what the rule without the pair gives ({:?})", what, msw.name(), got, want),
+                    mk_case(json!("S1-dneg-model")),
+                );
+                return;
+            }
         }
     }
     let pri = ["double-negation", "condition-quantifier", "negated-structure"];
